@@ -38,6 +38,7 @@ static long g_f_calls; static int g_f_arg, g_f_result; static size_t g_f_index;
 static size_t g_victim; static long g_f_calls_victim;
 static bool g_may_throw;
 static long g_os_resets; static bool g_os_reset_before_signal;
+static bool g_ref_bound, g_ref_dangling;
 static long g_connects; static int g_conn_sender; static int g_conn_op;
 static long g_succ_starts; static bool g_succ_emplaced_at_start;
 static long g_sched_calls, g_sched_starts; static bool g_parked_at_sched_start, g_sched_emplaced_at_start;
@@ -53,6 +54,7 @@ static void init_ghost(void)
   vx_exc = false; g_thrown_tok = g_current_exception = 0; g_caught = false;
   g_set_value = g_set_error = g_set_stopped = 0; g_tok = 0; g_has_payload = false; g_receiver_moved = false;
   g_f_calls = 0; g_f_arg = g_f_result = 0; g_f_index = 0; g_victim = 0; g_f_calls_victim = 0; g_may_throw = false;
+  g_ref_bound = g_ref_dangling = false;
   g_os_resets = 0; g_os_reset_before_signal = false; g_connects = 0; g_conn_sender = g_conn_op = 0; g_succ_starts = 0;
   g_succ_emplaced_at_start = false; g_sched_calls = g_sched_starts = 0; g_parked_at_sched_start = g_sched_emplaced_at_start = false;
   g_child_starts = 0; g_releases = 0; g_alive = true; g_t_calls = g_c_calls = 0; g_c_arg = 0; g_t_threw = false; g_m_calls = 0; g_m_id = g_m_tok = 0;
@@ -65,6 +67,7 @@ static void recv_signal(struct receiver *r)
   VX_ASSERT(SIGNALS == 0, "the receiver is signalled at most once");
   VX_ASSERT(!g_receiver_moved, "the receiver is used after it was moved into the successor operation state");
   VX_ASSERT(!vx_exc, "ghost: no signal while an exception is in flight");
+  VX_ASSERT(!g_ref_dangling, "the payload forwarded downstream is a reference into the operation state that was reset before the signal (dangling): values/errors must arrive unchanged");
   g_os_reset_before_signal = g_os_resets > 0;
 }
 static void recv_set_value_0(struct receiver *r) { recv_signal(r); g_set_value++; g_has_payload = false; }
@@ -133,10 +136,13 @@ static void sched_start(int optok)
 }
 /* std::optional<operation_state_type> op_state of drop_operation_state / require_started */
 static bool os_has_value(struct op *o) { return o->op_state_has; }
-static void os_reset(struct op *o) { o->op_state_has = false; if (g_os_resets < 3) g_os_resets++; }
+static void os_reset(struct op *o) { o->op_state_has = false; if (g_os_resets < 3) g_os_resets++; if (g_ref_bound) g_ref_dangling = true; }
 static int os_deref(struct op *o) { VX_ASSERT(o->op_state_has, "dereference of an empty std::optional (op_state)"); return 0; }
 static void child_start(int optok) { if (g_child_starts < 3) g_child_starts++; }
 /* a local decay-copy `T local(std::forward<T>(x))`: may throw */
+/* `auto&& local = std::forward<T>(x)`: NO copy, the local is a reference to the caller's object -- which the
+ * upstream operation state may own (when_all, split, ... signal references into their own storage) */
+static int ref_bind(int tok) { g_ref_bound = true; return tok; }
 static int decay_copy(int tok)
 {
   VX_ASSERT(g_os_resets == 0, "the payload is copied out before the operation state that may own it is reset");
